@@ -18,8 +18,11 @@ pub uninterp spec fn env_third_party(file: PV) -> bool;
 pub uninterp spec fn env_is_plugin(file: PV) -> bool;
 /// string_utils::find_function_name_position(content, line, func_name): (start_char, end_char) of the name
 pub uninterp spec fn name_pos(src: Seq<char>, line: usize, fname: Seq<char>) -> (usize, usize);
-/// `func_name.starts_with("test_")`
-pub uninterp spec fn is_test_name(name: Seq<char>) -> bool;
+/// `func_name.starts_with("test")` -- pytest's default `python_functions` prefix, no underscore required (F-03f repaired):
+/// the name begins with the four characters t e s t.  Opaque: the visitors' proofs use it as an uninterpreted predicate of
+/// the name; only the lemmas about concrete names reveal it.
+#[verifier::opaque]
+pub open spec fn is_test_name(name: Seq<char>) -> bool { name.len() >= 4 && name.subrange(0, 4) == "test"@ }
 /// number of BYTES of the UTF-8 encoding of a text (`str::len`)
 pub uninterp spec fn blen(s: Seq<char>) -> nat;
 /// the line index get_line_index hands out for a text (memoised build_line_index: unit line_index)
@@ -159,7 +162,7 @@ pub open spec fn func_defs(v: FnV, file: PV, src: Seq<char>, li: Seq<usize>) -> 
     match first_fix(v.decos, 0) { Some(k) => seq![fixture_def(v, v.decos[k], file, src, li)], None => Seq::empty() }
 }
 /// usages of a function, in recording order: usefixtures marks, parametrize-indirect marks, then -- if it is a
-/// fixture -- its parameters except self / request / defaulted ones, then -- if its name starts with test_ -- its
+/// fixture -- its parameters except self / request / defaulted ones, then -- if its name starts with `test` -- its
 /// parameters except self / defaulted ones (a fixture-decorated `test_x` records its parameters twice: that is what the code does)
 pub open spec fn func_uses(v: FnV, file: PV, li: Seq<usize>) -> Seq<UseV> {
     let ps = all_params(v.args);
